@@ -42,6 +42,8 @@ def run(repo, rep):
     alg.reset()
     common.state_rule(repo, rep, [('geodepy.geodesy', 'vincinv')])
     common.typecheck_rules(repo, rep)
+    common.domain_guards(repo, rep, 'geodepy.geodesy', 'vincinv', ['lat1', 'lon1', 'lat2', 'lon2'],
+                         {'lat1': (-90, 90), 'lat2': (-90, 90), 'lon1': (-180, 180), 'lon2': (-180, 180)}, 'latitudes -90..90 (poles included) and longitudes -180..180')
     rep.trust('sv/alg.py exact normal forms; generator independence modulo the rewrite rules applied')
     rep.trust('reference equations: GDA2020 technical manual v1.x eq. 71-85 (Vincenty 1975)')
     f = repo.func('geodepy.geodesy', 'vincinv')
